@@ -10,7 +10,7 @@ from .c14 import spec_parse
 MANIFEST = dict(
     engines="A",
     technique="symbolic execution (CrossHair+z3) of Changelog.parse_changelog in lenient and strict mode and of the formatting/editing API: line sequences are drawn by symbolic indices from a catalogue of ~24 line kinds, one fully symbolic line sits at a symbolic position, allow_empty_author is symbolic; editing calls take symbolic grammar-valid strings",
-    text="Bounded model checking of the five-state parser: for every sequence of up to 3 (thorough: 4) catalogue lines (headers, trailers, one-space and empty-author trailers, change lines, blank lines, junk, '#' and /* */ comments, CVS keywords, emacs/vim mode lines, the eight old-format markers) inserted at every position of a well-formed changelog, and for one arbitrary symbolic line of up to 2-3 characters at any position: the lenient constructor never raises, strict parsing raises the parse error iff lenient parsing warns, and whenever str() succeeds its output re-parses to the same blocks and formats to the identical text. Editing (new_block, add_change, attribute assignment with grammar-valid symbolic strings) on empty and parsed changelogs is checked for the same normal-form property.",
+    text="Bounded model checking of the five-state parser: for every sequence of up to 3 (thorough: 4) catalogue lines (headers, trailers, one-space and empty-author trailers, change lines, blank lines, junk, '#' and /* */ comments, CVS keywords, emacs/vim mode lines, the eight old-format markers) inserted at every position of a well-formed changelog, and for one arbitrary symbolic line of up to 2-3 characters at any position: the lenient constructor never raises, strict parsing raises the parse error iff lenient parsing warns, and whenever str() succeeds its output re-parses to the same blocks and formats to the identical text. Editing (new_block, add_change, attribute assignment with grammar-valid symbolic strings) on empty and parsed changelogs is checked for the same normal-form property. Every pair of catalogue lines appended after two complete entries.",
     note="Catalogue lines are concrete and chosen by symbolic index (solver-driven enumeration of the state machine's input alphabet); the free line is fully symbolic. Assumed: editing arguments are valid for their grammar position (the API does not validate them, and the statement does not say what happens otherwise); text input is str (bytes decoding is outside).",
 )
 
